@@ -630,24 +630,22 @@ func c06Window(c *Ctx, sx *symx.Ctx) {
 			return
 		}
 	}
-	var M float64 = -1
+	// every window the candidate list is cut to is at least the requested
+	// limit: Limit itself, Limit times a constant >= 1, a larger constant that
+	// takes over only where the window was found below it, max(...) with such a
+	// value — computed here or in a helper given the limit
+	nCuts, bad := 0, ""
 	ssau.ForEachInstr(fn, false, func(in ssa.Instruction) {
-		bo, ok := in.(*ssa.BinOp)
-		if !ok || bo.Op != token.MUL {
+		sl, ok := in.(*ssa.Slice)
+		if !ok || !srSlice(sl.Type()) || sl.High == nil {
 			return
 		}
-		if optLoad(bo.X, "Limit") {
-			if k, ok := ssau.ConstFloat(bo.Y); ok {
-				M = k
-			}
-		}
-		if optLoad(bo.Y, "Limit") {
-			if k, ok := ssau.ConstFloat(bo.X); ok {
-				M = k
-			}
+		nCuts++
+		if !c06AtLeastLimit(c, sl.High, nil, 0) {
+			bad = f.Plain(sl.High)
 		}
 	})
-	r.Check(M >= 1, "O-6", fk+"#window-multiplier", c.P.Pos(fn.Pos()), fmt.Sprintf("candidate window = %v * Limit (with a floor)", M), fmt.Sprintf("the re-rank window multiplier is %v (< 1): candidates within the requested limit are cut before re-ranking", M))
+	r.Check(nCuts > 0 && bad == "", "O-6", fk+"#window-multiplier", c.P.Pos(fn.Pos()), "every cut keeps at least Limit candidates (Limit times a constant >= 1, raised by floors)", "the re-rank window "+bad+" is not shown to be at least the requested limit: candidates within the requested limit can be cut before re-ranking")
 	// every reslice of the candidate list is guarded
 	n := 0
 	ssau.ForEachInstr(fn, false, func(in ssa.Instruction) {
@@ -670,4 +668,160 @@ func c06Window(c *Ctx, sx *symx.Ctx) {
 		r.Check(len(cut) > 0 && !ssau.ReachableAvoidingEdges(fn, sl.Block(), cut), "O-6", fmt.Sprintf("%s#window-cut-%d-guarded", fk, n), c.P.Pos(sl.Pos()), "the cut happens only when the list is longer than the window", "the candidate list is resliced without the guard len(list) > window")
 	})
 	r.Floor("O-6", "candidate cuts", n, 1)
+}
+
+// c06AtLeastLimit: v >= options.Limit (for Limit >= 0): the limit itself, the
+// limit times a constant >= 1, a merge whose other inputs are constants that
+// arrive only where such a value was found below them, max(...) containing
+// such a value, or the result of a helper of the repository in which the same
+// holds for the parameter that receives the limit.
+func c06AtLeastLimit(c *Ctx, v ssa.Value, isLimit func(ssa.Value) bool, d int) bool {
+	if d > 6 {
+		return false
+	}
+	lim := func(x ssa.Value) bool {
+		if isLimit != nil {
+			return isLimit(x)
+		}
+		return optLoad(x, "Limit")
+	}
+	if lim(v) {
+		return true
+	}
+	switch x := v.(type) {
+	case *ssa.BinOp:
+		if x.Op == token.MUL {
+			if k, ok := ssau.ConstFloat(x.Y); ok && k >= 1 && c06AtLeastLimit(c, x.X, isLimit, d+1) {
+				return true
+			}
+			if k, ok := ssau.ConstFloat(x.X); ok && k >= 1 && c06AtLeastLimit(c, x.Y, isLimit, d+1) {
+				return true
+			}
+		}
+	case *ssa.Phi:
+		var base []ssa.Value
+		for _, e := range x.Edges {
+			if _, isC := ssau.ConstFloat(e); !isC {
+				if !c06AtLeastLimit(c, e, isLimit, d+1) {
+					return false
+				}
+				base = append(base, e)
+			}
+		}
+		if len(base) == 0 {
+			return false
+		}
+		// constant edges: a floor that takes over only where the value was below it
+		cd := ssau.ControlDeps(x.Parent())
+		for i, e := range x.Edges {
+			k, isC := ssau.ConstFloat(e)
+			if !isC {
+				continue
+			}
+			pred := x.Block().Preds[i]
+			deps := ssau.TransitiveControlDeps(cd, pred)
+			if iff, ok := pred.Instrs[len(pred.Instrs)-1].(*ssa.If); ok {
+				for k2, sc := range pred.Succs {
+					if sc == x.Block() {
+						deps = append(deps, ssau.CtrlDep{Branch: iff.Block(), Then: k2 == 0})
+					}
+				}
+			}
+			raised := false
+			for _, dp := range deps {
+				op, a, b, ok := ssau.CondOf(dp.If().Cond)
+				if !ok {
+					continue
+				}
+				if !dp.Then {
+					op = ssau.Negate(op)
+				}
+				if kk, isK := ssau.ConstFloat(a); isK {
+					a, b, op = b, a, ssau.Flip(op)
+					_ = kk
+				}
+				kk, isK := ssau.ConstFloat(b)
+				if !isK || kk > k {
+					continue
+				}
+				for _, bv := range base {
+					if a == bv && (op == token.LSS || op == token.LEQ) {
+						raised = true
+					}
+				}
+			}
+			if !raised {
+				return false
+			}
+		}
+		return true
+	case *ssa.Call:
+		n := ssau.CallName(x)
+		if n == "builtin.max" || strings.HasSuffix(n, "/internal/utils.Max") {
+			for _, a := range x.Common().Args {
+				if c06AtLeastLimit(c, a, isLimit, d+1) {
+					return true
+				}
+			}
+			return false
+		}
+		g := x.Common().StaticCallee()
+		if g == nil || !c.P.IsRepoFunc(g) || len(g.Blocks) == 0 {
+			return false
+		}
+		// the parameters that receive a value >= Limit
+		var ps []*ssa.Parameter
+		for i, a := range x.Common().Args {
+			if i < len(g.Params) && c06AtLeastLimit(c, a, isLimit, d+1) {
+				ps = append(ps, g.Params[i])
+			}
+		}
+		if len(ps) == 0 {
+			return false
+		}
+		inner := func(y ssa.Value) bool {
+			for _, p := range ps {
+				if y == ssa.Value(p) || ssau.ParamOf(y) == p {
+					return true
+				}
+			}
+			return false
+		}
+		rets := ssau.ReturnsOf(g)
+		cdg := ssau.ControlDeps(g)
+		some := false
+		for _, ret := range rets {
+			rv := ssau.ResultValue(ret, 0)
+			if k, isC := ssau.ConstFloat(rv); isC {
+				// a floor returned directly: only where a value >= Limit was found below it
+				raised := false
+				for _, dp := range ssau.TransitiveControlDeps(cdg, ret.Block()) {
+					op, a, b, ok := ssau.CondOf(dp.If().Cond)
+					if !ok {
+						continue
+					}
+					if !dp.Then {
+						op = ssau.Negate(op)
+					}
+					if _, isK := ssau.ConstFloat(a); isK {
+						a, b, op = b, a, ssau.Flip(op)
+					}
+					kk, isK := ssau.ConstFloat(b)
+					if isK && kk <= k && (op == token.LSS || op == token.LEQ) && c06AtLeastLimit(c, a, inner, d+1) {
+						raised = true
+					}
+				}
+				if !raised {
+					return false
+				}
+				continue
+			}
+			if !c06AtLeastLimit(c, rv, inner, d+1) {
+				return false
+			}
+			some = true
+		}
+		return some
+	}
+	return false
 }
